@@ -307,7 +307,7 @@ func vxCycAlphabet(prop string, cfg vxCfg) []vxSym {
 func vxCycConfigs(prop string) []vxCfg {
 	var out []vxCfg
 	limits := [][2]int{{-1, -1}, {0, 255}, {0, 100}, {50, 255}, {50, 100}, {100, 100}, {0, 0}, {255, 255}, {250, 255}}
-	maps := []string{"identity", "readme", "quant5", "three"}
+	maps := []string{"identity", "readme", "quant5", "three", "compress"}
 	algos := []string{"direct", "direct:1", "direct:10", "direct:255", "pid", "pid:1,0,0", "pid:0,0,1e6", "pid:-0.3,-0.02,0"}
 	nstops := []bool{false, true}
 	if prop == "C02" {
@@ -368,12 +368,22 @@ func vxCycTest(t *testing.T, prop string) {
 	cfgs := vxCycConfigs(prop)
 	deadline := mc.Deadline(50*time.Second, 12*time.Minute)
 	synctest.Test(t, func(t *testing.T) {
-		for ci, cfg := range cfgs {
-			if !mc.Mine(ci) {
-				continue
+		var mine []int
+		for ci := range cfgs {
+			if mc.Mine(ci) {
+				mine = append(mine, ci)
 			}
+		}
+		for mi, ci := range mine {
+			cfg := cfgs[ci]
 			alpha := vxCycAlphabet(prop, cfg)
-			o := mc.BFSOpts{NSym: len(alpha), Deadline: deadline, MaxStates: 20000}
+			// time slicing: every configuration of this shard gets an equal share of what is left of the budget,
+			// so that a configuration whose state space does not close cannot starve the ones after it
+			slice := deadline.Sub(mc.RealNow()) / time.Duration(len(mine)-mi)
+			if slice < 300*time.Millisecond {
+				slice = 300 * time.Millisecond
+			}
+			o := mc.BFSOpts{NSym: len(alpha), Deadline: mc.RealNow().Add(slice), MaxStates: 20000}
 			if vxIsPid(cfg.Algo) {
 				o.MaxDepth = 3
 				if mc.Thorough() {
